@@ -32,20 +32,27 @@ LIB_SOURCES = [
     "src/place_global/transportation.cpp", "src/place_global/transportation_1d.cpp",
 ]
 
+FLOAT_SAN = ",float-cast-overflow,float-divide-by-zero"
 VARIANTS = {
     # assertions ON: the README's default CMake configuration
     "plain": ["-O1"],
     "ndebug": ["-O1", "-DNDEBUG"],
-    "asan": ["-O1", "-g", "-fno-omit-frame-pointer", "-fsanitize=address,undefined",
-             "-fno-sanitize-recover=all"],
+    # g++'s -fsanitize=undefined does NOT include float-cast-overflow (float -> int conversions out of
+    # range: std::round(...) -> long long / int, (int)(factor * height)) nor float-divide-by-zero:
+    # both are named explicitly (review C07-3)
+    "asan": ["-O1", "-g", "-fno-omit-frame-pointer",
+             "-fsanitize=address,undefined" + FLOAT_SAN, "-fno-sanitize-recover=all"],
     "asan-ndebug": ["-O1", "-g", "-fno-omit-frame-pointer", "-DNDEBUG",
-                    "-fsanitize=address,undefined", "-fno-sanitize-recover=all"],
+                    "-fsanitize=address,undefined" + FLOAT_SAN, "-fno-sanitize-recover=all"],
     # bounds / memory only (C14: the LLONG_MIN addition in checkSolutionOptimal is an observation)
     "asan-nosio": ["-O1", "-g", "-fno-omit-frame-pointer",
-                   "-fsanitize=address,bounds,pointer-overflow,null,alignment,vla-bound",
+                   "-fsanitize=address,bounds,pointer-overflow,null,alignment,vla-bound" + FLOAT_SAN,
                    "-fno-sanitize-recover=all"],
     "tsan": ["-O1", "-g", "-fsanitize=thread"],
 }
+# part of the library cache key: bump the tag of a variant whenever its flags change (the key is
+# otherwise only the hash of /repo's sources + the variant name, and a stale library would be reused)
+FLAGS_REV = {"asan": "f2", "asan-ndebug": "f2", "asan-nosio": "f2"}
 BASEFLAGS = ["-std=gnu++17", "-I" + os.path.join(REPO, "src"), "-I/usr/include/eigen3",
              "-D" + GUARD, "-pthread", "-w"]
 
@@ -117,7 +124,7 @@ class BuildError(Exception):
 def build_repo(variant="plain"):
     """compile the 17 library sources of /repo's working tree -> static lib; cached by hash"""
     flags = VARIANTS[variant]
-    key = repo_hash() + "-" + variant
+    key = repo_hash() + FLAGS_REV.get(variant, "") + "-" + variant
     d = os.path.join(CACHE, key)
     lib = os.path.join(d, "libcoloquinte.a")
     with Lock("repo-" + variant):
